@@ -1,0 +1,6 @@
+//go:build verif && !race
+
+package iavl
+
+func verifRaceDisable() {}
+func verifRaceEnable()  {}
